@@ -119,13 +119,13 @@ PROPS['C01'] = dict(
     thorough=dict(workers=16, cases=40000, budget=1200, min_nontrivial=5000),
     rule='case = (configuration: query type incl. autodetect, forced/auto downstream codec, forced/auto fragment size 2..1300, '
          '-M 100..255, lazy, raw mode, 1..3 real clients, tunnel domain, wildcard server domain, netmask, IPv4/IPv6 transport) + '
-         '(1..30 timed packet offers on server/client tun devices: to the peer, to another client, to nobody; 0..3800 byte '
+         '(1..30 timed packet offers on server/client tun devices: to the peer, to another client, to nobody; 0..1400 (14/17), 0..3800 (2/17), 0..6000 (1/17) byte '
          'bodies of 6 content classes) + (per-datagram fault tape: drop/duplicate x1-3/delay up to 3 s, optionally one direction '
          'only, black-outs) for 1..40 virtual s, then a clean drain. Oracle: every tun write equals a packet read earlier '
          'from the tun device of a different instance. non-trivial iff the handshake completed, >=1 delivered packet needed '
          '>=2 fragments and >=1 fault decision hit; distinct = hash of the choice tape',
     engine_text='rapidcheck over choice tapes; simnet hosting real iodined + real iodine clients; ASan+UBSan',
-    bounds='<= 3 clients, <= 30 offers, packets <= 3800+24 bytes, <= 40 virtual s of faults, delays <= 3 s',
+    bounds='<= 3 clients, <= 30 offers, packets <= 6000+24 bytes, <= 40 virtual s of faults, delays <= 3 s',
     trusted_base=TB_SIM,
     assumptions=AS_SIM + ['a mis-assembled packet passing zlib Adler-32 (2^-32) cannot be generated on purpose'],
 )
@@ -155,7 +155,8 @@ PROPS['C09'] = dict(
          'x query-name length (8, 53, 253 chars) x caller buffer (4096 handshake / 65536 tunnel). Sweep: payload lengths '
          '2..4096 with contents {random, ff.., 00.., fragment-probe pattern, DOWNCODECCHECK1}: the server answer writer '
          '(write_dns) output is fed to the client reply reader (read_dns_withq); outcome must be exact, nothing or a proper '
-         'prefix; exact lengths must form an initial segment per configuration and content; random cases add arbitrary '
+         'prefix; exact lengths must form an initial segment per configuration and content; the outcome (class and number of bytes) must be the same for the three '
+         'query-name lengths (fitting is a matter of the answer format, not of the echoed question); random cases add arbitrary '
          'contents/ids. non-trivial iff the payload needs >= 2 TXT strings / >= 2 MX-SRV records / a dotted name, or lies '
          'within 2 of the largest exact length',
     exhaustive_text='thorough: every length 2..4096 x 5 contents x all 210 configurations; quick: lengths 2..320 + windows at '
@@ -177,7 +178,7 @@ PROPS['C15'] = dict(
     quick=dict(workers=8, cases=4000, budget=40, min_nontrivial=100),
     thorough=dict(workers=16, cases=80000, budget=1200, min_nontrivial=5000),
     rule=SES_RULE + 'C15 mix: fragment sizes from {0,1,2,3,50,100,101,255,1200,4093..4096,65535,random 16-bit}, packets up to 20000 bytes, '
-         'acknowledgement games. Oracle: every data answer carries <= F_current bytes after the 2-byte header (100 before any accepted size); '
+         'acknowledgement games, up to two expiries (silent 61-76 s) followed by a new login into the same slot, half of them without an N request. Oracle: every data answer carries <= F_current bytes after the 2-byte header (100 before any accepted size); '
          'sizes < 2 are answered BADFRAG; per packet fragment numbers are 0,1,2,.. each increment preceded by a matching acknowledgement; the '
          'last-fragment flag is set exactly on the fragment that completes the compressed packet the server read from its tun device. '
          'non-trivial iff a packet needed >= 3 fragments and a size was set by an accepted N request',
@@ -189,7 +190,7 @@ PROPS['C14'] = dict(
     bin='c14', sources=['props/c14.cc'] + SIMSRC2, unit_objs=UNIT, images=IMGS, engine='rc',
     quick=dict(workers=8, cases=4000, budget=40, min_nontrivial=100),
     thorough=dict(workers=16, cases=80000, budget=1200, min_nontrivial=5000),
-    rule=SES_RULE + 'C14 mix: 1..3 sessions, duplicates of pending and answered queries with new ids / from other relay addresses. Oracle '
+    rule=SES_RULE + 'C14 mix: 1..3 sessions, duplicates of pending and answered queries with new ids / from other relay addresses, upstream packets addressed to another session (1 in 3 with several sessions). Oracle '
          '(credit accounting): every query the server read that parses (strict RFC 1035 parser) adds one credit (source, id, name, type); every '
          'answer the server emits must consume one unanswered matching credit; after every server step at most two distinct ping/data '
          'questions per session are unanswered. non-trivial iff a remembered duplicate of a pending query was answered together with the '
@@ -267,15 +268,16 @@ PROPS['C04'] = dict(
          'before execution: honest ping / one-fragment data packet (to the server or another session) / option request; SPOOF = L I S O N R P '
          'data, raw login (wrong response), raw data, raw ping naming a victim session userid but sent from another session\'s or a third party\'s '
          'address; packet on the server tun for a live session, a slot nobody is logged in on, the server, network, broadcast, an outside address; '
-         'time steps 5 ms .. 70 s; new version requests from third parties. Oracles: (1) the plan is executed twice from reset, with and without the '
+         'time steps 5 ms .. 70 s incl. 59.6 / 60.0 / 60.5 / 61.0 s; new version requests from third parties; third parties that log in (with source checking), '
+         'poll and then own the tunnel address of their slot (packets for it must reach them only; packets that arrived for the slot\'s earlier owner never). Oracles: (1) the plan is executed twice from reset, with and without the '
          'spoofed datagrams: decoded answers and raw frames received by every session and the server tun writes must be identical, and each '
          'spoofed DNS request must be answered BADIP (raw frames not at all); (2) bytes of a tun packet for address A appear only in datagrams sent '
          'to the address of the session that was assigned A and was active <= 58 s ago, never if it was silent >= 62 s / not logged in / '
-         'unassigned; (3) a VACK never names a slot active <= 58 s ago, VFUL only when no slot is unused or silent >= 62 s, a session silent '
+         'unassigned; (3) a VACK never names a slot whose age on the server\'s whole-second clock is <= 60 (the harness\'s lower bound of the last refresh is never later than the server\'s), VFUL only when no slot is unused or silent >= 62 s (upper bound of the last refresh), a session silent '
          '>= 62 s is refused. non-trivial iff >= 2 sessions, >= 1 spoof, tun packets for a live and for a dead address, >= 1 expiry crossing',
     engine_text='rapidcheck over choice tapes; simnet hosting the real iodined; honest and adversarial scripted peers (refproto); differential execution',
     bounds='<= 8 sessions, <= 3 third parties, <= 90 actions, <= 600 virtual s', trusted_base=TB_SIM,
-    assumptions=AS_SIM + ['liveness band: 58..62 s of silence is exercised but not judged', 'a spoofer has a different IP address than its victim (the server compares addresses, not ports)'],
+    assumptions=AS_SIM + ['liveness band: 58..62 s of silence is exercised but not judged for routing and refusal; the take-over rule is judged exactly at 60 whole seconds', 'a spoofer has a different IP address than its victim (the server compares addresses, not ports)'],
 )
 
 PROPS['C13'] = dict(
@@ -328,7 +330,8 @@ PROPS['C05'] = dict(
          '1..3 further addresses: raw bytes (lengths 0..4097 from a boundary list, random, 60000+), malformed DNS (odd counts, QR set, names with pointer loops, '
          'pointers to or past the end, pointer pairs, reserved label types, unterminated, 255+ octets, labels of bytes >= 0x80 / NUL / dot / shell characters, '
          'junk records, truncation, trailing garbage), protocol messages with adversarial userids / hashes / arguments, raw-mode frames of any command nibble and '
-         'length up to 65 KB, tun packets of 0..65000 bytes for any destination, a command letter followed by up to 240 arbitrary bytes, time steps. Oracle: (i) '
+         'length up to 65 KB, raw login / ping / data frames of the attacker\'s own session cut after 3..19 bytes (in half of them the rest of the complete frame is still in the receive buffer), '
+         'tun packets of 0..65000 bytes for any destination, a command letter followed by up to 240 arbitrary bytes, time steps. Oracle: (i) '
          'no sanitizer report, server still running and back in select() (scheduler step bound + 20 s wall-clock watchdog per case); (ii) every honest session '
          'active within 58 s sends a fresh one-fragment packet: written unchanged to the server tun device and acknowledged in a well-formed answer. Steps that '
          'may legitimately act for an honest session (its own address; a correct raw login; anything when source checking is off) are excluded by construction. '
@@ -374,11 +377,12 @@ PROPS['C12'] = dict(
     rule='case = (datagram or whole scenario) + residue B from {ff.., one byte value, random pattern, crafted continuation (labels + tunnel domain + type/class; ttl + '
          'rdlength + a compressed downstream fragment; a prefixed TXT string / label; random) repeated from the end of the datagram}; residue A is all zero. '
          'layer 1 (60%): dns_decode in query or answer mode on a 64 KB buffer holding a hostile datagram (generators of C05/C06: names with pointers to / past the '
-         'end, loops, unterminated or over-long names, truncated sections, RDLENGTH lies, TXT overruns, 1..260 MX/SRV records) optionally cut at a random byte, '
+         'end, loops, unterminated or over-long names, truncated sections, RDLENGTH lies, TXT overruns, 1..260 MX/SRV records) optionally cut at a random byte, or (1 in 4) '
+         'a boundary datagram with consistent length fields whose last byte is the first byte of a compression pointer / a label length / inside a label or TXT string, '
          'caller buffer 4096 or 65536: return value, decoded name, type, id and output bytes must be equal. layer 2 (20% + 20%): the complete C05 scenario '
          '(real iodined, sessions, hostile history, health probe) or C06 scenario (real iodine client vs scripted server with hostile reply policy) executed twice '
          'from reset: every datagram the real program sends (exact bytes), every tun write, every system() string and the exit status must be equal. '
-         'non-trivial iff the case contains a residue-sensitive shape (cut / truncated / pointer / past-end / unterminated / RDLENGTH lie / TXT overrun)',
+         'non-trivial iff the case contains a residue-sensitive shape (cut / truncated / pointer / past-end / unterminated / RDLENGTH lie / TXT overrun / boundary datagram)',
     engine_text='rapidcheck over choice tapes + libFuzzer; differential execution over receive-buffer residues (simnet fills [n, capacity) of every recv buffer); unit shape for dns_decode',
     bounds='as C05 / C06', trusted_base=TB_SIM + ['sim/simnet.cc residue filling of recv/recvfrom/recvmsg buffers'],
     assumptions=AS_SIM + ['stale contents of buffers other than the receive buffer (uninitialised stack) are not controlled by the harness'],
